@@ -74,7 +74,7 @@ fn canon(cfg: &IoCfg) -> Canon {
     }
 }
 
-/// Distinguishable device states: ULA (no key) 0xBF, Kempston 0x15, mouse buttons 0xF5 (wheel 15),
+/// Distinguishable device states: ULA 0xBF/0xBE/0xBD/0xBC by selected half-rows (keys A and L held), Kempston 0x15, mouse buttons 0xF5 (wheel 15),
 /// X 0x3C, Y 0x5A, AY register 3 = 0x77 selected, extender 0xE7, floating (border time) 0xFF.
 fn prepared(cfg: &IoCfg) -> Emu {
     let mut c = Cfg::new(cfg.m128);
@@ -107,6 +107,9 @@ fn prepared(cfg: &IoCfg) -> Emu {
     e.verif_write_io(k.ay_dat, 0x22);
     e.verif_write_io(k.ay_sel, 3);
     e.verif_write_io(k.ay_dat, 0x77);
+    // two keys in different half-rows stay down during the whole sweep
+    e.send_key(rustzx_core::zx::keys::ZXKey::A, true);
+    e.send_key(rustzx_core::zx::keys::ZXKey::L, true);
     // speaker bit on (border stays black): bit 6 of a ULA read is the tape EAR input, not the speaker latch
     e.verif_write_io(k.ula, 0x10);
     if let Some(x) = e.io_extender() {
@@ -115,12 +118,27 @@ fn prepared(cfg: &IoCfg) -> Emu {
     e
 }
 
-fn classify_read(v: u8, ext_hit: bool) -> Option<usize> {
+/// keys held during the sweep: A (half-row 1, bit 0) and L (half-row 6, bit 1) — a ULA read shows the
+/// AND of the half-rows whose selector bit (A8..A15) is 0, bit 6 = EAR (low), bits 5 and 7 set
+fn expected_ula(high: u8) -> u8 {
+    let mut v = 0xFFu8;
+    if high & 0x02 == 0 {
+        v &= 0xFE;
+    }
+    if high & 0x40 == 0 {
+        v &= 0xFD;
+    }
+    v & 0xBF
+}
+
+fn classify_read(v: u8, ext_hit: bool, port: u16) -> Option<usize> {
     if ext_hit {
         return Some(0);
     }
+    if v == expected_ula((port >> 8) as u8) {
+        return Some(1);
+    }
     match v {
-        0xBF => Some(1),
         0xF5 => Some(2),
         0x3C => Some(3),
         0x5A => Some(4),
@@ -214,7 +232,7 @@ fn read_one(e: &mut Emu, port: u16) -> (Option<usize>, String) {
     if let Some(x) = e.io_extender() {
         x.log.clear();
     }
-    (classify_read(v, hit), format!("{:02x}", v))
+    (classify_read(v, hit, port), format!("{:02x}", v))
 }
 
 /// performs the write, observes which device changed, restores the device state
